@@ -1,8 +1,8 @@
 (* Proofs/C17.v — serialisation round trips (property C17) over the model of
    the serde data model (Rt/Serde.v): generic in the amount type's codec. *)
-From Coq Require Import Lia String.
+From Coq Require Import Lia String ZArith.
 From QV Require Import Rt.Prelude Rt.Amount Rt.Quantity Rt.Serde Macro.Defs Gen.Prefixes Gen.Catalogue Gen.Config
-  Gen.Kernels Macro.Inst Amount.F64 Amount.DecModel Amount.Dec Proofs.Laws Proofs.Instances Proofs.C09 Proofs.C19.
+  Gen.Kernels Macro.Inst Amount.F64 Amount.DecModel Amount.Dec Amount.DecStr Amount.DecCodec Proofs.Laws Proofs.Instances Proofs.C09 Proofs.C19.
 Local Open Scope string_scope.
 
 Lemma index_of_nth (l : list ustring) : nodupb l = true -> forall i, i < length l -> index_of (nth i l []) l = Some i.
